@@ -144,7 +144,9 @@ mod kani_c07 {
         }
     }
 
-    /// Icmpv6Repr::parse on echo and error messages (NDISC / MLD bodies: see the ndisc / mld harnesses)
+    /// Icmpv6Repr::parse on echo and error messages (NDISC / MLD bodies: see the ndisc / mld harnesses).
+    /// Run without a link-layer medium feature (obligations/C07.json unit wire_f0): with medium-ieee802154 the NdiscRepr::parse
+    /// arm of the dispatcher makes CBMC's symbolic execution of this harness intractable.
     #[cfg(feature = "proto-ipv6")]
     #[kani::proof] #[kani::unwind(18)]
     fn c07_icmpv6_repr_parse() {
@@ -616,6 +618,471 @@ mod kani_c07 {
             }
         }
     }
+
+    // ======================================================================== merged from sub-agent C
+    // ------------------------------------------------------------------------------------------ DHCPv4
+    // Fixed header: 240 bytes (op .. magic cookie); the option area follows.
+    // options(): every call of next() skips PAD bytes (at most one inner iteration per byte of the area) and returns an
+    // option of >= 2 bytes, so an area of S bytes yields at most S/2 options; an option whose length byte points past the
+    // buffer, a lone kind byte and END all finish the iteration.
+    // CBMC cost is (number of unrolled loop bodies) x (reads at symbolic offsets into a >= 240 byte array), so the
+    // fully symbolic harnesses use a small option area and the deeper parse branches are reached by structured harnesses
+    // (c07_dhcp_repr_parse_opt: message type option + one option of symbolic kind/length/content).
+    #[cfg(feature = "proto-dhcpv4")]
+    #[kani::proof] #[kani::unwind(8)]
+    fn c07_dhcp_packet() {
+        const L: usize = 240 + 14;
+        let buf: [u8; L] = kani::any();
+        let n: usize = kani::any();
+        kani::assume(n <= L); // tag: range
+        let r = DhcpPacket::new_checked(&buf[..n]);
+        kani::cover!(r.is_ok() && n == 240, "packet without option area accepted");
+        kani::cover!(r.is_err() && n == 239, "packet shorter than the fixed header rejected");
+        if let Ok(p) = r {
+            touch(p.check_len());
+            touch(p.opcode()); touch(p.hardware_type()); touch(p.hardware_len()); touch(p.transaction_id());
+            touch(p.client_hardware_address()); touch(p.hops()); touch(p.secs()); touch(p.magic_number());
+            touch(p.client_ip()); touch(p.your_ip()); touch(p.server_ip()); touch(p.relay_agent_ip()); touch(p.flags());
+            touch(p.into_inner());
+        }
+    }
+
+    /// the options iterator terminates (at most S/2 options, then None) and every option it yields lies inside the option area.
+    /// The S/2 + 1 calls of next() are written out so that only the PAD-skipping loop is unwound (S + 1 iterations).
+    #[cfg(feature = "proto-dhcpv4")]
+    fn dhcp_options_walk<const S: usize, const L: usize>() {
+        let buf: [u8; L] = kani::any();
+        let n: usize = kani::any();
+        kani::assume(n <= L); // tag: range
+        assert!(L == 240 + S);
+        if let Ok(p) = DhcpPacket::new_checked(&buf[..n]) {
+            let mut it = p.options();
+            let mut cnt: usize = 0;
+            let mut used: usize = 0;
+            let mut done = false;
+            // S/2 + 1 calls (S <= 8)
+            if !done { match it.next() { Some(o) => { cnt += 1; used += 2 + o.data.len(); assert!(o.kind != 0 && o.kind != 255 && used <= n - 240, "C07.dhcp: options lie inside the option area"); } None => done = true } }
+            if !done && S >= 2 { match it.next() { Some(o) => { cnt += 1; used += 2 + o.data.len(); assert!(o.kind != 0 && o.kind != 255 && used <= n - 240, "C07.dhcp: options lie inside the option area"); } None => done = true } }
+            if !done && S >= 4 { match it.next() { Some(o) => { cnt += 1; used += 2 + o.data.len(); assert!(o.kind != 0 && o.kind != 255 && used <= n - 240, "C07.dhcp: options lie inside the option area"); } None => done = true } }
+            if !done && S >= 6 { match it.next() { Some(o) => { cnt += 1; used += 2 + o.data.len(); assert!(o.kind != 0 && o.kind != 255 && used <= n - 240, "C07.dhcp: options lie inside the option area"); } None => done = true } }
+            if !done && S >= 8 { match it.next() { Some(o) => { cnt += 1; used += 2 + o.data.len(); assert!(o.kind != 0 && o.kind != 255 && used <= n - 240, "C07.dhcp: options lie inside the option area"); } None => done = true } }
+            assert!(done && cnt <= S / 2, "C07.dhcp: options() ends after at most len/2 options");
+            kani::cover!(cnt == S / 2, "option area full of zero-length options iterated");
+            kani::cover!(cnt == 0 && n == L && buf[240] == 53 && buf[241] as usize > S, "option with oversized length ends the iteration");
+        }
+    }
+
+    #[cfg(feature = "proto-dhcpv4")]
+    #[kani::proof] #[kani::unwind(8)]
+    fn c07_dhcp_options() { dhcp_options_walk::<6, 246>(); }
+
+    #[cfg(feature = "proto-dhcpv4")]
+    #[kani::proof] #[kani::unwind(10)]
+    fn c07_dhcp_options_8() { dhcp_options_walk::<8, 248>(); }
+
+    /// DhcpRepr::parse over every byte string of up to 240 + 4 bytes
+    #[cfg(feature = "proto-dhcpv4")]
+    #[kani::proof] #[kani::unwind(6)]
+    fn c07_dhcp_repr_parse() {
+        const L: usize = 240 + 4;
+        let buf: [u8; L] = kani::any();
+        let n: usize = kani::any();
+        kani::assume(n <= L); // tag: range
+        // DhcpRepr::parse performs its own check_len(): also exercised on unchecked short packets
+        let p = DhcpPacket::new_unchecked(&buf[..n]);
+        let r = DhcpRepr::parse(&p);
+        kani::cover!(r.is_ok() && n == 243, "DHCP parse of a packet holding only a message type can succeed");
+        kani::cover!(r.is_err() && n == L && buf[1] == 1 && buf[2] == 6 && p.magic_number() == 0x63825363, "packet without message type option rejected");
+        if let Ok(r) = r {
+            assert!(n >= 240 + 3, "C07.dhcp: a parsed packet holds a message type option");
+            touch(r.buffer_len());
+        }
+    }
+
+    /// DhcpRepr::parse on: valid header, message type option, then ONE option of symbolic kind, length (0..=DHCP_OPT_MAX,
+    /// also lengths pointing past the buffer) and content, then END. Reaches every per-option branch of parse with a
+    /// successful result (client identifier, 0..4 DNS servers incl. the discarded 4th, parameter request list, ...).
+    #[cfg(feature = "proto-dhcpv4")]
+    const DHCP_OPT_MAX: usize = 17;
+
+    #[cfg(feature = "proto-dhcpv4")]
+    #[kani::proof] #[kani::unwind(6)]
+    fn c07_dhcp_repr_parse_opt() {
+        const L: usize = 240 + 3 + 2 + DHCP_OPT_MAX + 1;
+        let mut buf: [u8; L] = kani::any();
+        buf[1] = 1; buf[2] = 6;
+        buf[236] = 0x63; buf[237] = 0x82; buf[238] = 0x53; buf[239] = 0x63;
+        buf[240] = 53; buf[241] = 1;
+        kani::assume(buf[243] != 0); // tag: structure (no padding before the option)
+        let len = buf[244] as usize;
+        kani::assume(len > DHCP_OPT_MAX || buf[245 + len] == 255); // tag: structure (END after the option, or option runs past the buffer)
+        let p = DhcpPacket::new_checked(&buf[..]);
+        if let Ok(p) = p {
+            let r = DhcpRepr::parse(&p);
+            kani::cover!(match &r { Ok(r) => match &r.dns_servers { Some(v) => v.len() == 3 && len == 16, None => false }, _ => false }, "fourth DNS server discarded");
+            kani::cover!(match &r { Ok(r) => r.client_identifier.is_some(), _ => false }, "client identifier parsed");
+            kani::cover!(r.is_err() && buf[0] == 1 && buf[242] == 1 && buf[243] == 61 && len == 7, "client identifier with non-Ethernet hardware type rejected");
+            if let Ok(r) = r { touch(r.buffer_len()); }
+        }
+    }
+
+    /// get_sname / get_boot_file scan the 74 + 128 bytes of the sname and file fields (unwind 130) and validate UTF-8
+    #[cfg(feature = "proto-dhcpv4")]
+    #[kani::proof] #[kani::unwind(130)]
+    fn c07_dhcp_strings() {
+        const L: usize = 240;
+        let buf: [u8; L] = kani::any();
+        if let Ok(p) = DhcpPacket::new_checked(&buf[..]) {
+            let s = p.get_sname();
+            let f = p.get_boot_file();
+            kani::cover!(s.is_ok(), "server name readable");
+            kani::cover!(f.is_err(), "boot file name rejected");
+            touch(s); touch(f);
+        }
+    }
+
+
+    // ------------------------------------------------------------------------------------------ DNS
+    #[cfg(feature = "proto-dns")]
+    #[kani::proof] #[kani::unwind(8)]
+    fn c07_dns_packet() {
+        const L: usize = 12 + 12;
+        let buf: [u8; L] = kani::any();
+        let n: usize = kani::any();
+        kani::assume(n <= L); // tag: range
+        let r = DnsPacket::new_checked(&buf[..n]);
+        kani::cover!(r.is_ok() && n == 12, "header-only packet accepted");
+        kani::cover!(r.is_err() && n == 11, "packet shorter than the header rejected");
+        if let Ok(p) = r {
+            touch(p.check_len());
+            touch(p.transaction_id()); touch(p.flags()); touch(p.opcode()); touch(p.rcode());
+            touch(p.question_count()); touch(p.answer_record_count()); touch(p.authority_record_count()); touch(p.additional_record_count());
+            assert!(p.payload().len() == n - 12);
+            touch(p.into_inner());
+        }
+    }
+
+    // parse_name(bytes): labels are yielded until the root label (None) or an error; a compression pointer may only point
+    // before the part of the packet that is still unread, so pointer chains are strictly decreasing and self-referential
+    // pointers end with Err. As socket::dns does, the consumer stops at the first Err (after an Err the iterator is not fused).
+    // Bounds for a packet of L bytes and a name starting in the payload (P = L - 12 bytes): a label takes >= 2 bytes, every byte
+    // is read at most once before and once after the first pointer: at most (P + L) / 2 labels; a pointer takes 2 bytes
+    // and consecutive pointers cannot overlap (the low byte of the first would have to be >= 0xC0 > L): chains of <= L / 2 + 1.
+    #[cfg(feature = "proto-dns")]
+    fn dns_walk_name<const L: usize>() {
+        let buf: [u8; L] = kani::any();
+        let n: usize = kani::any();
+        kani::assume(n <= L); // tag: range
+        if let Ok(p) = DnsPacket::new_checked(&buf[..n]) {
+            let mut labels: usize = 0;
+            let mut err = false;
+            for r in p.parse_name(p.payload()) {
+                match r {
+                    Ok(l) => { labels += 1; assert!(1 <= l.len() && l.len() <= 63 && l.len() < n, "C07.dns: labels are non-empty and lie inside the packet"); }
+                    Err(_) => { err = true; break; }
+                }
+            }
+            assert!(labels <= (L - 12 + L) / 2, "C07.dns: parse_name yields a bounded number of labels");
+            kani::cover!(err && n == 14 && buf[12] == 0xC0 && buf[13] == 12, "self-referential pointer ends with Err");
+            kani::cover!(!err && labels >= 1 && n == L && buf[12] == 0xC0, "name reached through a pointer parsed");
+        }
+    }
+
+    #[cfg(feature = "proto-dns")]
+    #[kani::proof] #[kani::unwind(10)]
+    fn c07_dns_parse_name_14() { dns_walk_name::<14>(); }
+
+    #[cfg(feature = "proto-dns")]
+    #[kani::proof] #[kani::unwind(12)]
+    fn c07_dns_parse_name_16() { dns_walk_name::<16>(); }
+
+    #[cfg(feature = "proto-dns")]
+    #[kani::proof] #[kani::unwind(20)]
+    fn c07_dns_parse_name_24() { dns_walk_name::<24>(); }
+
+    /// DnsQuestion::parse / DnsRecord::parse (and DnsRecordData::parse) on the payload of every packet of up to 12 + 16 bytes
+    #[cfg(feature = "proto-dns")]
+    #[kani::proof] #[kani::unwind(10)]
+    fn c07_dns_question_record() {
+        const L: usize = 12 + 16;
+        let buf: [u8; L] = kani::any();
+        let n: usize = kani::any();
+        kani::assume(n <= L); // tag: range
+        if let Ok(p) = DnsPacket::new_checked(&buf[..n]) {
+            let pl = p.payload();
+            let q = DnsQuestion::parse(pl);
+            kani::cover!(q.is_ok(), "question parse can succeed");
+            if let Ok((rest, q)) = &q {
+                assert!(q.name.len() + 4 + rest.len() == pl.len(), "C07.dns: question and rest partition the payload");
+                touch(q.buffer_len());
+            }
+            let r = DnsRecord::parse(pl);
+            kani::cover!(match &r { Ok((_, r)) => match r.data { DnsRecordData::A(_) => true, _ => false }, _ => false }, "A record parse can succeed");
+            kani::cover!(r.is_err() && n == L && buf[12] == 0 && buf[15] == 1 && buf[16] == 1, "record with a data length beyond the buffer rejected");
+            if let Ok((rest, r)) = &r {
+                assert!(r.name.len() + 10 + rest.len() <= pl.len(), "C07.dns: record and rest lie inside the payload");
+            }
+        }
+    }
+
+    // ======================================================================== merged from sub-agent A
+    // ------------------------------------------------------------------------------------------ IPv6 extension header (generic)
+    #[cfg(feature = "proto-ipv6")]
+    #[kani::proof] #[kani::unwind(4)]
+    fn c07_ipv6ext_header() {
+        const L: usize = 24;
+        let buf: [u8; L] = kani::any();
+        let n: usize = kani::any();
+        kani::assume(n <= L); // tag: range
+        let r = Ipv6ExtHeader::new_checked(&buf[..n]);
+        kani::cover!(r.is_ok() && buf[1] == 2, "24 octet header accepted");
+        kani::cover!(r.is_err() && n >= 8, "length field beyond the buffer rejected");
+        if let Ok(h) = r {
+            touch(h.next_header()); touch(h.header_len());
+            let pl = h.payload();
+            assert!(pl.len() == h.header_len() as usize * 8 + 6);
+            touch(h.check_len());
+            let rr = Ipv6ExtHeaderRepr::parse(&h);
+            kani::cover!(rr.is_ok(), "extension header parse can succeed");
+            touch(rr);
+            touch(h.into_inner());
+        }
+    }
+
+    // ------------------------------------------------------------------------------------------ IPv6 fragment header
+    #[cfg(feature = "proto-ipv6")]
+    #[kani::proof] #[kani::unwind(4)]
+    fn c07_ipv6frag_header() {
+        const L: usize = 8;
+        let buf: [u8; L] = kani::any();
+        let n: usize = kani::any();
+        kani::assume(n <= L); // tag: range
+        let r = Ipv6FragmentHeader::new_checked(&buf[..n]);
+        kani::cover!(r.is_ok() && n == 6, "minimal fragment header accepted");
+        kani::cover!(r.is_err(), "short fragment header rejected");
+        if let Ok(h) = r {
+            touch(h.frag_offset()); touch(h.more_frags()); touch(h.ident());
+            touch(h.check_len());
+            let rr = Ipv6FragmentRepr::parse(&h);
+            kani::cover!(rr.is_ok(), "fragment header parse can succeed");
+            touch(rr);
+            touch(h.into_inner());
+        }
+    }
+
+    // ------------------------------------------------------------------------------------------ IPv6 routing header
+    // type-specific accessors are guarded by routing_type() as in Ipv6RoutingRepr::parse
+    #[cfg(feature = "proto-ipv6")]
+    #[kani::proof] #[kani::unwind(18)]
+    fn c07_ipv6routing_header() {
+        const L: usize = 24;
+        let buf: [u8; L] = kani::any();
+        let n: usize = kani::any();
+        kani::assume(n <= L); // tag: range
+        let r = Ipv6RoutingHeader::new_checked(&buf[..n]);
+        kani::cover!(r.is_ok() && n == 2, "two octet header of an unknown routing type accepted");
+        kani::cover!(r.is_err() && n >= 6 && buf[0] == 2, "short Type 2 header rejected");
+        kani::cover!(r.is_err() && n >= 2 && buf[0] == 3, "short RPL header rejected");
+        if let Ok(h) = r {
+            touch(h.routing_type()); touch(h.segments_left());
+            match h.routing_type() {
+                Ipv6RoutingType::Type2 => { touch(h.home_address()); }
+                Ipv6RoutingType::Rpl => {
+                    touch(h.cmpr_i()); touch(h.cmpr_e()); touch(h.pad());
+                    assert!(h.addresses().len() == n - 6);
+                }
+                _ => {}
+            }
+            touch(h.check_len());
+            let rr = Ipv6RoutingRepr::parse(&h);
+            kani::cover!(rr.is_ok(), "routing header parse can succeed");
+            kani::cover!(rr.is_err(), "unsupported routing type rejected by parse");
+            touch(rr);
+        }
+    }
+
+    // ------------------------------------------------------------------------------------------ IPv6 option
+    // data_len() / data() are documented to panic on a Pad1 option: guarded like Ipv6OptionRepr::parse does
+    #[cfg(feature = "proto-ipv6")]
+    #[kani::proof] #[kani::unwind(4)]
+    fn c07_ipv6opt_option() {
+        const L: usize = 10;
+        let buf: [u8; L] = kani::any();
+        let n: usize = kani::any();
+        kani::assume(n <= L); // tag: range
+        let r = Ipv6Option::new_checked(&buf[..n]);
+        kani::cover!(r.is_ok() && n == 1, "Pad1 in a one octet buffer accepted");
+        kani::cover!(r.is_err() && n >= 2, "option with a data length beyond the buffer rejected");
+        kani::cover!(r.is_err() && n == 1, "one octet buffer holding an option with a length octet rejected");
+        if let Ok(o) = r {
+            touch(o.option_type());
+            if o.option_type() != Ipv6OptionType::Pad1 {
+                touch(o.data_len());
+                assert!(o.data().len() == o.data_len() as usize);
+            }
+            touch(o.check_len());
+            let rr = Ipv6OptionRepr::parse(&o);
+            kani::cover!(rr.is_err(), "router alert with a wrong length rejected by parse");
+            kani::cover!(matches!(rr, Ok(Ipv6OptionRepr::Unknown { .. })), "unknown option parsed");
+            touch(rr);
+        }
+    }
+
+    // ------------------------------------------------------------------------------------------ IPv6 options iterator
+    // termination: every Ok item advances by buffer_len() >= 1, an Err item ends the iteration; at most n items + the final None.
+    #[cfg(feature = "proto-ipv6")]
+    #[kani::proof] #[kani::unwind(10)]
+    fn c07_ipv6opt_iterator() {
+        const L: usize = 8;
+        let buf: [u8; L] = kani::any();
+        let n: usize = kani::any();
+        kani::assume(n <= L); // tag: range
+        let mut items = 0usize;
+        let mut errs = 0usize;
+        let mut used = 0usize;
+        for o in Ipv6OptionsIterator::new(&buf[..n]) {
+            items += 1;
+            match o { Ok(r) => { used += r.buffer_len(); } Err(_) => { errs += 1; } }
+        }
+        kani::cover!(items == L && errs == 0, "eight Pad1 options iterated");
+        kani::cover!(errs == 1 && items == 2, "option with an oversized length ends the iteration with an error");
+        kani::cover!(n >= 2 && buf[0] == 1 && buf[1] == 0 && items >= 2 && errs == 0, "PadN with zero length is stepped over");
+        assert!(items <= n && errs <= 1, "C07.ipv6opt: the iterator yields at most one item per octet and stops after an error");
+        assert!(used <= n, "C07.ipv6opt: the options yielded lie within the buffer");
+    }
+
+    // ------------------------------------------------------------------------------------------ IPv6 hop-by-hop options
+    #[cfg(feature = "proto-ipv6")]
+    #[kani::proof] #[kani::unwind(10)]
+    fn c07_ipv6hbh_header() {
+        const L: usize = 8;
+        let buf: [u8; L] = kani::any();
+        let n: usize = kani::any();
+        kani::assume(n <= L); // tag: range
+        let r = Ipv6HopByHopHeader::new_checked(&buf[..n]);
+        kani::cover!(r.is_err(), "empty option list rejected");
+        if let Ok(h) = r {
+            assert!(h.options().len() == n);
+            touch(h.check_len());
+            let rr = Ipv6HopByHopRepr::parse(&h);
+            kani::cover!(matches!(&rr, Ok(x) if x.options.len() == 4), "option list cut at IPV6_HBH_MAX_OPTIONS");
+            kani::cover!(rr.is_err(), "malformed option rejected by parse");
+            touch(rr);
+        }
+    }
+
+    // ------------------------------------------------------------------------------------------ NDISC option
+    // type-specific accessors are guarded by option_type() as in NdiscOptionRepr::parse
+    #[cfg(all(feature = "proto-ipv6", any(feature = "medium-ethernet", feature = "medium-ieee802154")))]
+    #[kani::proof] #[kani::unwind(18)]
+    fn c07_ndiscopt_option() {
+        const L: usize = 56;
+        let buf: [u8; L] = kani::any();
+        let n: usize = kani::any();
+        kani::assume(n <= L); // tag: range
+        let r = NdiscOption::new_checked(&buf[..n]);
+        kani::cover!(r.is_err() && n >= 8 && buf[1] == 0, "option with length 0 rejected");
+        kani::cover!(r.is_err() && n >= 8 && buf[1] == 1 && buf[0] == 3, "prefix information option shorter than 32 octets rejected");
+        kani::cover!(r.is_err() && n == L && buf[1] == 8, "option with a length beyond the buffer rejected");
+        if let Ok(o) = r {
+            touch(o.option_type()); touch(o.data_len());
+            assert!(o.data().len() == o.data_len() as usize * 8 - 2);
+            match o.option_type() {
+                NdiscOptionType::SourceLinkLayerAddr | NdiscOptionType::TargetLinkLayerAddr => { touch(o.link_layer_addr()); }
+                NdiscOptionType::PrefixInformation => {
+                    touch(o.prefix_len()); touch(o.prefix_flags()); touch(o.valid_lifetime()); touch(o.preferred_lifetime()); touch(o.prefix());
+                }
+                NdiscOptionType::Mtu => { touch(o.mtu()); }
+                _ => {}
+            }
+            touch(o.check_len());
+            let rr = NdiscOptionRepr::parse(&o);
+            kani::cover!(matches!(rr, Ok(NdiscOptionRepr::RedirectedHeader(_))), "redirected header option parsed");
+            kani::cover!(matches!(rr, Ok(NdiscOptionRepr::PrefixInformation(_))), "prefix information option parsed");
+            kani::cover!(rr.is_err() && buf[0] == 5, "MTU option with a wrong length rejected by parse");
+            touch(rr);
+        }
+    }
+
+    // ------------------------------------------------------------------------------------------ NDISC messages (Icmpv6Packet view)
+    // bytes restricted to the five NDISC message types; type-specific accessors guarded by msg_type() as in NdiscRepr::parse.
+    // (The generic ICMPv6 accessors incl. verify_checksum are covered by c07_icmpv6_*.)
+    #[cfg(all(feature = "proto-ipv6", any(feature = "medium-ethernet", feature = "medium-ieee802154")))]
+    #[kani::proof] #[kani::unwind(8)]
+    fn c07_ndisc_packet() {
+        const L: usize = 56;
+        let buf: [u8; L] = kani::any();
+        let n: usize = kani::any();
+        kani::assume(n <= L); // tag: range
+        kani::assume(133 <= buf[0] && buf[0] <= 137); // tag: range (NDISC message types)
+        let r = Icmpv6Packet::new_checked(&buf[..n]);
+        kani::cover!(r.is_err() && n >= 24 && buf[0] == 137, "redirect shorter than its header rejected");
+        if let Ok(p) = r {
+            touch(p.msg_type()); touch(p.msg_code()); touch(p.checksum()); touch(p.header_len());
+            assert!(p.payload().len() == n - p.header_len());
+            match p.msg_type() {
+                Icmpv6Message::RouterAdvert => {
+                    touch(p.current_hop_limit()); touch(p.router_flags()); touch(p.router_lifetime()); touch(p.reachable_time()); touch(p.retrans_time());
+                }
+                Icmpv6Message::NeighborSolicit => { touch(p.target_addr()); }
+                Icmpv6Message::NeighborAdvert => { touch(p.neighbor_flags()); touch(p.target_addr()); }
+                Icmpv6Message::Redirect => { touch(p.target_addr()); touch(p.dest_addr()); }
+                _ => {}
+            }
+            touch(p.check_len());
+            let rr = NdiscRepr::parse(&p);
+            kani::cover!(matches!(rr, Ok(NdiscRepr::RouterAdvert { prefix_info: Some(_), .. })), "router advertisement with prefix information parsed");
+            kani::cover!(rr.is_err() && n >= 48, "option with length 0 or beyond the packet rejected by parse");
+            touch(rr);
+        }
+    }
+
+    // ------------------------------------------------------------------------------------------ MLD (Icmpv6Packet view, address record)
+    #[cfg(feature = "proto-ipv6")]
+    #[kani::proof] #[kani::unwind(4)]
+    fn c07_mld_packet() {
+        const L: usize = 36;
+        let buf: [u8; L] = kani::any();
+        let n: usize = kani::any();
+        kani::assume(n <= L); // tag: range
+        kani::assume(buf[0] == 0x82 || buf[0] == 0x8f); // tag: range (MLD message types)
+        let r = Icmpv6Packet::new_checked(&buf[..n]);
+        kani::cover!(r.is_err() && n >= 8 && buf[0] == 0x82, "query shorter than 28 octets rejected");
+        kani::cover!(r.is_ok() && n == 8, "report without records accepted");
+        if let Ok(p) = r {
+            touch(p.msg_type()); touch(p.msg_code()); touch(p.checksum()); touch(p.header_len());
+            assert!(p.payload().len() == n - p.header_len());
+            match p.msg_type() {
+                Icmpv6Message::MldQuery => { touch(p.max_resp_code()); touch(p.mcast_addr()); touch(p.s_flag()); touch(p.qrv()); touch(p.qqic()); touch(p.num_srcs()); }
+                Icmpv6Message::MldReport => { touch(p.nr_mcast_addr_rcrds()); }
+                _ => {}
+            }
+            touch(p.check_len());
+            let rr = MldRepr::parse(&p);
+            kani::cover!(matches!(rr, Ok(MldRepr::Query { .. })), "query parsed");
+            touch(rr);
+        }
+    }
+
+    #[cfg(feature = "proto-ipv6")]
+    #[kani::proof] #[kani::unwind(4)]
+    fn c07_mld_record() {
+        const L: usize = 28;
+        let buf: [u8; L] = kani::any();
+        let n: usize = kani::any();
+        kani::assume(n <= L); // tag: range
+        let r = MldAddressRecord::new_checked(&buf[..n]);
+        kani::cover!(r.is_ok() && n == 20, "record without sources accepted");
+        kani::cover!(r.is_err(), "short record rejected");
+        if let Ok(rec) = r {
+            touch(rec.record_type()); touch(rec.aux_data_len()); touch(rec.num_srcs()); touch(rec.mcast_addr());
+            assert!(rec.payload().len() == n - 20);
+            touch(rec.check_len());
+            touch(MldAddressRecordRepr::parse(&rec));
+            touch(rec.into_inner());
+        }
+    }
+
 
     // ==== END kani_c07 ====
 }
